@@ -143,16 +143,24 @@ def main():
   for j, c in mine:
     seqs = [[r] for r in ROUTES] + [list(p) for p in (pairs if tier == "thorough" else rnd.sample(pairs, 3))]
     if len(sys.argv) > 7 and sys.argv[7] == "text":
-      seqs = [["RT_Str"], ["RT_Text0"], ["RT_Text1"], ["RT_Text2"], ["RT_Str", "RT_Str"]]
+      seqs = [["RT_Str"], ["RT_Text0"], ["RT_Text1"], ["RT_Text2"], ["RT_Str", "RT_Str"], ["cold", "RT_Str"]]
+    else:
+      # cold histories: the route is taken on an object that was never called (not built); the reference function
+      # is observed on an identically constructed twin
+      seqs += [["cold", r] for r in ROUTES[:3]]
     for seq in seqs:
       if seq[0].startswith("RT_Text"):
         route.text = render(c, int(seq[0][-1]))
       t += 1
       info = {"t": t, "cfg": j, "seq": seq, "steps": []}
+      cold = seq[0] == "cold"
+      if cold:
+        seq = seq[1:]
+        info["seq"] = ["cold"] + seq
       try:
         q0 = build(c)
         q = q0
-        ys, ss = probe(q)
+        ys, ss = probe(build(c) if cold else q)
       except Exception as e:
         info["construct_exc"] = repr(e)[:300]
         meta.append(info)
